@@ -238,6 +238,27 @@ class WhereIdx(object):
         self.mask = mask
 
 
+@model('numpy.testing.assert_array_almost_equal_nulp')
+def np_assert_nulp(interp, st, fr, args, kw):
+    """A-REAL reading of "equal to within a few units in the last place": on normal return the two arrays have
+    the same length and are equal element by element; otherwise AssertionError (or ValueError for shapes that
+    do not broadcast).  Whether it raises is left open (both continuations are explored)."""
+    USED.add('numpy.testing.assert_array_almost_equal_nulp')
+    x, y = _arr(interp, st, args[0]), _arr(interp, st, args[1])
+    xs, xf, _ = npm.info(st, x)
+    ys, yf, _ = npm.info(st, y)
+    if len(xs) != 1 or len(ys) != 1:
+        raise Unsupported("assert_array_almost_equal_nulp on n-d arrays")
+    rs = st.fork()
+    rs.assume_pc(Sc(fresh_bool('grids_differ')))
+    rs.status = 'raise'
+    rs.exc = ('AssertionError', 'arrays differ', 0)
+    rs.path += 'D'
+    interp._pending_forks.append(rs)
+    st.assume([compare('==', xs[0], ys[0]), Forall([xs[0]], lambda k: compare('==', xf((k,)), yf((k,))), name='nulp.equal')])
+    return None
+
+
 @model('numpy.hstack')
 def np_hstack(interp, st, fr, args, kw):
     parts = args[0]
